@@ -109,6 +109,7 @@ def artifacts(need_native=True, need_mir=(), need_replay=False):
             out = os.path.join(art, crate + ".mir")
             if not os.path.exists(out):
                 main = _crate_root(src, crate)
+                if crate == "sylt": main = os.path.join(src, "sylt", "src", "lib.rs")
                 os.utime(main, None)
                 with open(out + ".tmp", "w") as fh:
                     _run(["cargo", "+nightly", "rustc", "--offline", "-p", crate, "--lib", "--target-dir", os.path.join(BUILD, "mir"),
